@@ -36,6 +36,7 @@ func runC15(c *Ctx, r *Report) {
 	c15r9(c, r)
 	c15r10(c, r)
 	c15r11(c, r)
+	c15r12(c, r)
 	c15r8(c, r)
 }
 
